@@ -44,3 +44,16 @@ def lt(a, b):
 
 def nonfinite(c, v):
     return not c.isfinite(v)
+
+
+
+class StubInterfaceExceeded(Exception):
+    """the code under contract used a part of its environment that a contract's modular stand-in (a stub of the optic) does not
+    provide: the contract is *undecided* for that code (exit 2) -- the stand-in is an assumption about what the code reads, not a
+    requirement on it"""
+
+
+class StubBase:
+    """base class of stand-in objects: a missing attribute is an exceeded interface, not an AttributeError of the library"""
+    def __getattr__(self, name):
+        raise StubInterfaceExceeded('the code under contract reads %s.%s, which this modular stand-in does not model' % (type(self).__name__, name))
